@@ -65,6 +65,7 @@ for _src, _dsts in CAST_PAIRS.items():
     for _d in _dsts:
         op("batch_cast_to_%s" % _d, "xsimd::batch_cast<%s>(a)" % TYPES[_d][0], "B", [t for t in CAST_PAIRS if _d in CAST_PAIRS[t]], "R:" + _d)
         op("bitwise_cast_to_%s" % _d, "xsimd::bitwise_cast<%s>(a)" % TYPES[_d][0], "B", [t for t in CAST_PAIRS if _d in CAST_PAIRS[t]], "R:" + _d)
+        op("bool_cast_to_%s" % _d, "xsimd::batch_bool_cast<%s>(m)" % TYPES[_d][0], "M", [t for t in CAST_PAIRS if _d in CAST_PAIRS[t]], "RM:" + _d)
 op("to_int", "xsimd::to_int(a)", "B", FLOAT_TYPES, "R:int")
 op("to_float", "xsimd::to_float(a)", "B", ["i32", "i64"], "R:float")
 op("nearbyint_as_int", "xsimd::nearbyint_as_int(a)", "B", FLOAT_TYPES, "R:int")
@@ -168,7 +169,9 @@ def entry_text(opn, tid, aid):
             params.append("bool const* %s" % nm)
         elif k == "y":
             params.append("bool* %s" % nm)
-    if ret.startswith("R:"):
+    if ret.startswith("RM:"):
+        R = "xsimd::batch_bool<%s, %s>" % (TYPES[ret[3:]][0], A)
+    elif ret.startswith("R:"):
         d = ret[2:]
         if d == "int":
             d = {"f32": "i32", "f64": "i64"}[tid]
